@@ -209,8 +209,6 @@ func runC05(w *World, c *Check) {
 
 	// ---- rule 5: sibling agreement -------------------------------------------------
 	derive := `crypto/etype\.EType\.DeriveKey\(e, key, crypto/common\.GetUsageKe\(usage\)\)`
-	hm := `\(crypto/etype\.EType\.GetHMACBitLength\(e\) / 8\)`
-	ctBody := `ciphertext\[:\(len\(ciphertext\) - ` + hm + `\)\]`
 	for _, fam := range []struct{ enc, dec, ih string }{
 		{"crypto/rfc3961.DES3EncryptMessage", "crypto/rfc3961.DES3DecryptMessage", `crypto/common\.GetIntegrityHash\(.*, key, usage, e\)`},
 		{"crypto/rfc3962.EncryptMessage", "crypto/rfc3962.DecryptMessage", `crypto/common\.GetIntegrityHash\(.*, key, usage, e\)`},
@@ -232,14 +230,8 @@ func runC05(w *World, c *Check) {
 			}
 			c.Decide(ok, "C05.sibling", fam.enc, "layout", w.Pos(fn.Pos()), "the message is ciphertext ‖ integrity hash", "no success return of that shape")
 		}
-		checkCalls(w, c, "C05.sibling", fam.dec, []CallSpec{
-			{Name: "decrypt-derive-ke", Desc: "cipher key = DeriveKey(protocol key, usage‖0xAA)", Callee: `crypto/etype\.EType\.DeriveKey`, Want: derive},
-			{Name: "decrypt-body", Desc: "what is decrypted is the message without its trailing GetHMACBitLength()/8 bytes, under the derived key", Callee: `crypto/etype\.EType\.DecryptData`,
-				Want: `crypto/etype\.EType\.DecryptData\(e, ` + derive + `#0, ` + ctBody + `\)`},
-			{Name: "decrypt-verify", Desc: "integrity verified with the protocol key, the whole message, the decrypted bytes and the usage", Callee: `crypto/etype\.EType\.VerifyIntegrity`,
-				Want: `crypto/etype\.EType\.VerifyIntegrity\(e, key, ciphertext, crypto/etype\.EType\.DecryptData\(.*\)#0, usage\)`},
-		})
 	}
+	ruleDecryptShape(w, c, "C05.sibling")
 	// the integrity verifiers: MAC position and operand
 	ruleIntegrityOperands(w, c, "C05.sibling")
 	// RFC 4757
@@ -466,4 +458,23 @@ func ruleIntegrityOperands(w *World, c *Check, rule string) {
 	checkCalls(w, c, rule, "crypto/rfc4757.VerifyIntegrity", []CallSpec{
 		{Name: "hash-operand", Desc: "expected checksum = HMAC(K2, decrypted confounder‖data)", Callee: `crypto/rfc4757\.HMAC`, Want: `crypto/rfc4757\.HMAC\(key, pt\)`},
 	})
+}
+
+// ruleDecryptShape: the simplified-profile decryptors split the message into body ‖ MAC with no byte
+// left out: the body handed to DecryptData is everything but the trailing GetHMACBitLength()/8 bytes,
+// under the Ke-derived key, and VerifyIntegrity receives the whole message. Shared by C05 (sibling of
+// the encryptor's layout) and C06 (a byte outside both parts would be accepted unauthenticated).
+func ruleDecryptShape(w *World, c *Check, rule string) {
+	derive := `crypto/etype\.EType\.DeriveKey\(e, key, crypto/common\.GetUsageKe\(usage\)\)`
+	hm := `\(crypto/etype\.EType\.GetHMACBitLength\(e\) / 8\)`
+	ctBody := `ciphertext\[:\(len\(ciphertext\) - ` + hm + `\)\]`
+	for _, dec := range []string{"crypto/rfc3961.DES3DecryptMessage", "crypto/rfc3962.DecryptMessage", "crypto/rfc8009.DecryptMessage"} {
+		checkCalls(w, c, rule, dec, []CallSpec{
+			{Name: "decrypt-derive-ke", Desc: "cipher key = DeriveKey(protocol key, usage‖0xAA)", Callee: `crypto/etype\.EType\.DeriveKey`, Want: derive, AllMustMatch: true},
+			{Name: "decrypt-body", Desc: "what is decrypted is the message without its trailing GetHMACBitLength()/8 bytes, under the derived key", Callee: `crypto/etype\.EType\.DecryptData`,
+				Want: `crypto/etype\.EType\.DecryptData\(e, ` + derive + `#0, ` + ctBody + `\)`, AllMustMatch: true},
+			{Name: "decrypt-verify", Desc: "integrity verified with the protocol key, the whole message, the decrypted bytes and the usage", Callee: `crypto/etype\.EType\.VerifyIntegrity`,
+				Want: `crypto/etype\.EType\.VerifyIntegrity\(e, key, ciphertext, crypto/etype\.EType\.DecryptData\(.*\)#0, usage\)`, AllMustMatch: true},
+		})
+	}
 }
